@@ -79,6 +79,21 @@ def crafted(case):
             exts = [(1, b"name.txt"), (0x53, body), (0x52, b"grp"), (0x50, perm_f), (0x51, struct.pack("<HH", 100, 1000))]
         elif which == "group":
             exts = [(1, b"name.txt"), (0x52, body), (0x50, perm_f), (0x51, struct.pack("<HH", 100, 1000))]
+    elif f == "hdrbyte":
+        # any single byte of a plain member's header (no Unix metadata, so that the OS column shows) replaced by the hostile value,
+        # additive checksum of levels 0/1 re-made: whatever field the byte belongs to, its rendering must be printable
+        lvl = case["level"]
+        if lvl <= 1:
+            h = bytearray(lzhfmt.build_header(lvl, b"-lh0-", packed=len(DATA), size=len(DATA), crc=CRC, name=b"plain.txt", time=0x3C21A000, os=ord("M")))
+        else:
+            h = bytearray(lzhfmt.build_header(lvl, b"-lh0-", packed=len(DATA), size=len(DATA), crc=CRC, time=T, exts=[(1, b"plain.txt")], os=ord("M")))
+        at = case["at"]
+        if at >= len(h):
+            return None
+        h[at] = b
+        if lvl <= 1:
+            h[1] = sum(h[2:2 + h[0]]) & 0xFF
+        return bytes(h) + DATA
     elif f == "methodN":
         m = bytearray(b"-lh0-")
         m[case["pos5"]] = b
@@ -102,7 +117,7 @@ def build(case):
 
 def describe(space, case):
     return "C18 %s field=%s byte=0x%02x pos=%s kind=%s level=%s member=%s%s" % (space, case["field"], case["byte"], case.get("pos", case.get("pos5")), case["kind"], case["level"], case.get("member", 1),
-                                                                              " which=%s len=%s at=%s" % (case["which"], case["len"], case["at"]) if case["field"] == "long" else "")
+                                                                              " which=%s len=%s at=%s" % (case["which"], case["len"], case["at"]) if case["field"] == "long" else " at=%s" % case["at"] if case["field"] == "hdrbyte" else " answers=%r" % case["answers"] if case.get("answers") is not None else "")
 
 
 def run_case(runner, space, case):
@@ -120,8 +135,13 @@ def run_case(runner, space, case):
         m[3 if case["field"] == "method1" else case["pos5"]] = case["byte"]
         if bytes(m) in (b"-lh1-", b"-lh4-", b"-lh5-", b"-lh6-", b"-lh7-", b"-lhx-", b"-lhd-"):
             modes = [x for x in modes if x[0] != "p"]
+    pre = []
+    if case.get("answers") is not None:
+        # the member's file already exists, so that plain 'x' asks what to do; the answers come from standard input
+        nm = put(b"name.txt", case["pos"], case["byte"])
+        pre = [(b"dir/" + nm, "f", b"old", 0o644, 900000000), (b"first.txt", "f", b"old", 0o644, 900000000), (b"second.txt", "f", b"old", 0o644, 900000000), (b"third.txt", "f", b"old", 0o644, 900000000)]
     for mode in modes:
-        r = runner.run(arc, [mode, "../archive.lzh"], want_trees=False)
+        r = runner.run(arc, [mode, "../archive.lzh"], want_trees=False, pre=pre, stdin=(case.get("answers") or "").encode())
         n += 1
         outcome = hash((outcome, r.stdout, r.status))
         for name, stream in (("stdout", r.stdout), ("stderr", r.stderr)):
